@@ -107,6 +107,71 @@ def check_state(job):
     return c, out
 
 
+def factory_probes(ctx):
+    """C01/C04 for the remaining MRI operator factories: dense(A.H) = dense(A)^H, shapes swapped, A.H.H = A, A.N = A^H A."""
+    sp = _sp()
+    import sigpy.mri.rf  # noqa: F401
+
+    out = []
+    n = 0
+    rs = ctx.nprng("mri_factories")
+    cases = []
+    for trial in range(4 if not ctx.thorough else 10):
+        nc = int(rs.choice([1, 2, 3]))
+        mk = [int(rs.choice([2, 3])), int(rs.choice([2, 3]))]
+        ik = [int(rs.choice([4, 5])), int(rs.choice([4, 6]))]
+        mps_ker = rs.randn(nc, *mk) + 1j * rs.randn(nc, *mk)
+        img_ker = rs.randn(*ik) + 1j * rs.randn(*ik)
+        grd = [ik[0] - mk[0] + 1, ik[1] - mk[1] + 1]
+        coord = np.round(rs.uniform(-0.5, 0.5, (6, 2)) * np.array(grd) * 8) / 8
+        w = rs.choice([0.25, 1.0, 4.0], size=(6,))
+        for use_coord in (False, True):
+            for use_w in (False, True):
+                if use_w and not use_coord:
+                    wv = rs.choice([0.25, 1.0, 4.0], size=grd)
+                else:
+                    wv = w
+                kw = dict(coord=coord if use_coord else None, weights=wv if use_w else None, grd_shape=grd if use_coord else None)
+                cases.append(("ConvSense", lambda kw=kw, ik=ik, mps_ker=mps_ker: sp.mri.linop.ConvSense(ik, mps_ker, **kw)))
+                cases.append(("ConvImage", lambda kw=kw, nc=nc, mk=mk, img_ker=img_ker: sp.mri.linop.ConvImage([nc] + mk, img_ker, **kw)))
+        # parallel-transmit small-tip system matrix
+        dim = int(rs.choice([3, 4]))
+        nt = int(rs.choice([5, 7]))
+        sens = rs.randn(nc, dim, dim) + 1j * rs.randn(nc, dim, dim)
+        kc = rs.randn(nt, 2)
+        b0 = rs.randn(dim, dim) * 10
+        cases.append(("PtxSpatialExplicit", lambda sens=sens, kc=kc, dim=dim: sp.mri.rf.linop.PtxSpatialExplicit(sens, kc, 4e-6, (dim, dim))))
+        cases.append(("PtxSpatialExplicit_b0", lambda sens=sens, kc=kc, dim=dim, b0=b0: sp.mri.rf.linop.PtxSpatialExplicit(sens, kc, 4e-6, (dim, dim), b0=b0)))
+    for name, mk_ in cases:
+        n += 1
+        with warnings.catch_warnings():
+            warnings.simplefilter("ignore")
+            try:
+                A = mk_()
+                F, d1 = linop_build.dense(A)
+                G, d2 = linop_build.dense(A.H)
+                H2, _ = linop_build.dense(A.H.H, check_i=False)
+                Nn, _ = linop_build.dense(A.N, check_i=False)
+            except Exception as e:
+                out.append((["C01"], "factory_exception", "%s raised %r / %r" % (name, e, getattr(e, "__cause__", None))))
+                continue
+        if F is None or G is None:
+            out.append((["C03"], "factory_shape", "%s: output shape differs from the advertised one" % name))
+            continue
+        sc = max(1.0, np.abs(F).max())
+        if list(A.H.ishape) != list(A.oshape) or list(A.H.oshape) != list(A.ishape):
+            out.append((["C01"], "factory_adjoint_shape", "%s.H shapes are not swapped" % name))
+        if not np.allclose(G, F.conj().T, atol=1e-9 * sc, rtol=0):
+            out.append((["C01"], "factory_adjoint", "%s: <Ax,y> != <x,A^H y>, max |diff| %.3g" % (name, np.abs(G - F.conj().T).max())))
+        if H2 is None or not np.allclose(H2, F, atol=1e-9 * sc, rtol=0):
+            out.append((["C01"], "factory_involution", "%s.H.H does not act like the original" % name))
+        if Nn is None or not np.allclose(Nn, F.conj().T @ F, atol=1e-9 * sc * sc, rtol=0):
+            out.append((["C04"], "factory_normal", "%s.N differs from A^H A" % name))
+        for kind, d in d1 + d2:
+            out.append((["C02"], "factory_" + kind, "%s: %s" % (name, d)))
+    return out, n
+
+
 def ref_pdhg(E, y, lam, Gm, iters=20000):
     """Independent numpy primal-dual reference for 1/2||Ex-y||^2 + lam*||Gx||_1 (complex)."""
     n = E.shape[1]
@@ -160,6 +225,38 @@ def recon_checks(ctx):
                         out.append((["C16", "C14"], "senserecon_objective", "SenseRecon(solver=%s, lamda=%s, batch=%s): objective %.6g vs optimum %.6g" % (solver, lam, bsz, f, fs)))
                     if lam == 0 and np.linalg.norm(x - xt) > 1e-3 * np.linalg.norm(xt) and solver in (None,):
                         out.append((["C16"], "not_reproduced", "consistent fully determined data: SenseRecon does not reproduce the image (rel err %.3g)" % (np.linalg.norm(x - xt) / np.linalg.norm(xt))))
+        # explicit non-binary weights (density compensation / soft gating) and a 3-D image
+        wts = rs.choice([0.25, 1.0, 4.0], size=shape)
+        Ew = np.vstack([np.diag(np.sqrt(wts).ravel()) @ F @ np.diag(mps[k].ravel()) for k in range(nc)])
+        yw = (np.vstack([F @ np.diag(mps[k].ravel()) for k in range(nc)]) @ xt.ravel()).reshape((nc,) + shape)
+        for lam in (0.0, 0.05):
+            yy = (np.sqrt(wts)[None] * yw).ravel()
+            xs = np.linalg.solve(Ew.conj().T @ Ew + lam * np.eye(16), Ew.conj().T @ yy)
+            fs = 0.5 * np.linalg.norm(Ew @ xs - yy) ** 2 + lam / 2 * np.linalg.norm(xs) ** 2
+            for bsz in (None, 2):
+                n_eval += 1
+                with warnings.catch_warnings():
+                    warnings.simplefilter("ignore")
+                    x = sp.mri.app.SenseRecon(yw.copy(), mps, lamda=lam, weights=wts, coil_batch_size=bsz, show_pbar=False, max_iter=80).run()
+                f = 0.5 * np.linalg.norm(Ew @ x.ravel() - yy) ** 2 + lam / 2 * np.linalg.norm(x) ** 2
+                if f - fs > 2e-3 * max(1.0, fs):
+                    out.append((["C16"], "senserecon_weighted", "SenseRecon(weights, lamda=%s, batch=%s): weighted objective %.6g vs optimum %.6g" % (lam, bsz, f, fs)))
+        if trial == 0:
+            sh3 = (2, 3, 2)
+            F3 = centred_dft(sh3)
+            m3 = rs.randn(nc, *sh3) + 1j * rs.randn(nc, *sh3)
+            x3 = rs.randn(*sh3) + 1j * rs.randn(*sh3)
+            E3 = np.vstack([F3 @ np.diag(m3[k].ravel()) for k in range(nc)])
+            y3 = (E3 @ x3.ravel()).reshape((nc,) + sh3)
+            n_eval += 2
+            with warnings.catch_warnings():
+                warnings.simplefilter("ignore")
+                xr = sp.mri.app.SenseRecon(y3.copy(), m3, lamda=0, show_pbar=False, max_iter=100).run()
+                xtv = sp.mri.app.TotalVariationRecon(y3.copy(), m3, 0.0, show_pbar=False, max_iter=3000).run()
+            if np.linalg.norm(xr - x3) > 1e-3 * np.linalg.norm(x3):
+                out.append((["C16"], "not_reproduced", "3-D SenseRecon does not reproduce the image (rel err %.3g)" % (np.linalg.norm(xr - x3) / np.linalg.norm(x3))))
+            if np.linalg.norm(xtv - x3) > 5e-3 * np.linalg.norm(x3):
+                out.append((["C16"], "not_reproduced", "3-D TotalVariationRecon(lamda=0) does not reproduce the image (rel err %.3g)" % (np.linalg.norm(xtv - x3) / np.linalg.norm(x3))))
         # TV and L1-wavelet (Haar on 4x4 is unitary): independent numpy primal-dual reference
         Gop = sp.linop.FiniteDifference(list(shape))
         Gm, _ = linop_build.dense(Gop, check_i=False)
@@ -214,6 +311,13 @@ def run(ctx):
         for props, kind, detail in out:
             r.violations.append(core.Violation(props, "sense", {"kind": kind, "ncoils": c["ncoils"], "batch": c["batch"], "coords": c["kind"], "weighted": c["weighted"]}, detail, {}))
     r.samples.append({"config": dict(results[len(results) // 2][0]), "batch_plan": [list(b) for b in jobs[len(results) // 2][0]["batches"]]})
+    fout, nf = factory_probes(ctx)
+    for props, kind, detail in fout:
+        r.violations.append(core.Violation(props, "sense", {"kind": kind}, detail, {}))
+    r.traces += nf
+    r.evaluations += nf
+    r.nontrivial += nf
+    r.notes.append("%d ConvSense / ConvImage / PtxSpatialExplicit operators probed (adjoint, involution, normal)" % nf)
     rout, ne = recon_checks(ctx)
     for props, kind, detail in rout:
         r.violations.append(core.Violation(props, "sense", {"kind": kind}, detail, {}))
